@@ -1,5 +1,96 @@
 import NA.Core.IOUtil
-/-! Driver stub for C10 (not built yet): echoes its input. -/
+import NA.Model.CryptoMapDev
+/-!
+Driver `nadrv-c10`: the crypto map models of `NA.Vpn` on one case per line.
+
+* `E<TAB>ai=…<TAB>ats=…<TAB>am=…<TAB>ab=…<TAB>bts=…<TAB>bm=…<TAB>bb=…` → `ok<TAB>line|line|…<TAB>acc+conv|acc|rej<TAB>line|…` (the change
+  list of `NA.Vpn.engine`, whether `NA.Vpn.applyAll` accepts it, the change list of a second run on the result) or `abort`.
+* `M<TAB>cmd#cmd#…<TAB>cmd#cmd#…` (device commands, target commands; `cmd` = `id~name~seq~key~peer`)
+  → `ok<TAB>call;call;…` with `call` = `aIds>bId:name:seq,…` (the calls of `f` in `matchCryptoMap`) or `abort`.
+
+Field syntax: lists of objects separated by `;`, fields by `~`, commands of one crypto map by `#`
+(first element: `NAME~drc`), references by `,`; `peer` = `S:<ip>` / `D:<name>` / empty.
+-/
+open NA.IOUtil NA.Vpn
+
+def splitNE (s : String) (sep : String) : List String := if s.isEmpty then [] else s.splitOn sep
+
+def parsePeer (s : String) : Option Peer :=
+  if s.startsWith "S:" then some (.static (s.drop 2).toString)
+  else if s.startsWith "D:" then some (.dyn (s.drop 2).toString)
+  else none
+
+def parseInt (s : String) : Int := s.toInt?.getD 0
+
+/-- `id~seq~key~orig~peer~refs` -/
+def parseCmd (name : String) (s : String) : Cmd × String :=
+  match s.splitOn "~" with
+  | [id, seq, key, orig, peer, refs] =>
+    ({ id := id.toNat?.getD 0, name := name, seq := parseInt seq, key := key, body := key.splitOn "$REF",
+       refs := splitNE refs ",", peer := parsePeer peer }, orig)
+  | _ => ({ name := name, seq := 0, key := "?" }, "?")
+
+def parseMap (s : String) : String × Bool × List (Cmd × String) :=
+  match s.splitOn "#" with
+  | hd :: cmds =>
+    match hd.splitOn "~" with
+    | [name, drc] => (name, drc == "1", cmds.map (parseCmd name))
+    | _ => ("?", false, [])
+  | [] => ("?", false, [])
+
+def parseTS (s : String) : String × String × Bool :=
+  match s.splitOn "~" with
+  | [n, c, d] => (n, c, d == "1")
+  | [n, c] => (n, c, false)
+  | _ => ("?", "?", false)
+
+def parseBind (s : String) : String × String :=
+  match s.splitOn "~" with
+  | [m, i] => (m, i)
+  | _ => ("?", "?")
+
+def field (fs : List String) (k : String) : String :=
+  match fs.find? (fun f => f.startsWith (k ++ "=")) with
+  | some f => (f.drop (k.length + 1)).toString
+  | none => ""
+
+def runEngine (fs : List String) : String :=
+  let a : Config := { intfs := splitNE (field fs "ai") ",", ts := (splitNE (field fs "ats") ";").map parseTS,
+                      maps := (splitNE (field fs "am") ";").map parseMap, binds := (splitNE (field fs "ab") ";").map parseBind }
+  let b : Config := { ts := (splitNE (field fs "bts") ";").map parseTS,
+                      maps := (splitNE (field fs "bm") ";").map parseMap, binds := (splitNE (field fs "bb") ";").map parseBind }
+  match engine a b with
+  | some cs =>
+    -- the model's script on the Lean device, and the second run on the result
+    let second := match applyAll a cs with
+      | some a1 => (if viewOn (managedIntfs b) a1 == viewOn (managedIntfs b) b then "acc+conv\t" else "acc\t") ++ (match script a1 b with
+        | some ls => "|".intercalate ls
+        | none => "abort")
+      | none => "rej\t"
+    "ok\t" ++ "|".intercalate (cs.map Chg.render) ++ "\t" ++ second
+  | none => "abort"
+
+/-- `id~name~seq~key~peer` -/
+def parseMCmd (s : String) : Cmd :=
+  match s.splitOn "~" with
+  | [id, name, seq, key, peer] => { id := id.toNat?.getD 0, name := name, seq := parseInt seq, key := key, peer := parsePeer peer }
+  | _ => { name := "?", seq := 0, key := "?" }
+
+def showCall (c : Call) : String :=
+  ",".intercalate (c.a.map fun x => toString x.id) ++ ">" ++
+    ",".intercalate (c.b.map fun x => toString x.id ++ ":" ++ x.name ++ ":" ++ toString x.seq)
+
+def runMatch (a b : String) : String :=
+  match matchCryptoMap ((splitNE a "#").map parseMCmd) ((splitNE b "#").map parseMCmd) with
+  | some calls => "ok\t" ++ ";".intercalate (calls.map showCall)
+  | none => "abort"
+
+def answer (line : String) : String :=
+  match line.splitOn "\t" with
+  | "E" :: fs => runEngine fs
+  | ["M", a, b] => runMatch a b
+  | _ => "bad-input"
+
 def main (_ : List String) : IO UInt32 := do
-  NA.IOUtil.eachLine id
+  eachLine answer
   return 0
